@@ -113,7 +113,7 @@ class Models:
         if isinstance(x, Cell):
             x = x.v
         if isinstance(x, SSeq):
-            return SInt(z3.Length(x.e))
+            return SInt(z3.simplify(dsl.smart_length(x.e)))
         if isinstance(x, SStr):
             return SInt(z3.Length(x.e))
         if hasattr(x, 'items') and x.__class__.__name__ == 'TrackList':
@@ -232,6 +232,8 @@ class Models:
             n = ip.ctx.unique_int(z3.Length(x.e))
             if n is None:
                 return None
+            for i in range(min(n, 16)):
+                ip.ctx.add_pool(i)          # the ∀-facts about this sequence are needed at these positions
             return [x.ek.wrap(x.e[i]) for i in range(n)]
         return list(ip.iterate(x))
 
@@ -312,7 +314,7 @@ class Models:
 
     def m_bytearray(self, ip, *args, **kwargs):
         if not args:
-            return Cell(SSeq(z3.Empty(IntSeq), bytearray), bytearray) if False else bytearray()
+            return Cell(SSeq(z3.Empty(IntSeq), bytearray), bytearray)
         if len(args) > 1 or kwargs:
             if not has_sym(args):
                 return ip.native(bytearray, list(args), kwargs)
@@ -1083,7 +1085,11 @@ class Models:
         cfr = Frame(fr.name, env, fr.g, fr.fi)
         ip.assign(gens[0].target, sv.ek.wrap(sv.e[k]), cfr)
         pos0 = len(ctx.decisions), ctx.pos
-        val = ip.eval(e.elt, cfr)
+        ctx.merge_ifexp = True
+        try:
+            val = ip.eval(e.elt, cfr)
+        finally:
+            ctx.merge_ifexp = False
         if (len(ctx.decisions), ctx.pos) != pos0:
             raise Unsupported('comprehension element expression branches on the element')
         if isinstance(val, (SInt, SBool)) or (isinstance(val, int) and not isinstance(val, bool)):
@@ -1120,7 +1126,7 @@ class Models:
                 raise PyRaise(struct.error, ('argument out of range',))
             u = z3.If(e < 0, e + (1 << (8 * size)), e) if signed else e
             for b in range(size - 1, -1, -1):
-                out.append(SInt(z3.simplify((u / (1 << (8 * b))) % 256)))
+                out.append(SInt((u / (1 << (8 * b))) % 256))
         r = SSeq(zseq(out), bytes)
         mark_bytes(ip.ctx, r)
         return r
@@ -1148,7 +1154,10 @@ class Models:
                     u = u * 256 + e[pos + b]
                 if signed:
                     u = z3.If(u >= (1 << (8 * size - 1)), u - (1 << (8 * size)), u)
-                out.append(SInt(z3.simplify(u)))
+                # name the value (keeps later terms small; seq.nth is left as it is for the sequence axioms)
+                c = ip.ctx.fresh('unpacked')
+                ip.ctx.assume(c == u)
+                out.append(SInt(c))
             pos += size
         return tuple(out)
 
